@@ -125,3 +125,41 @@ func PBKDF2(pw, salt []byte, iter, keyLen int) []byte {
 	}
 	return out[:keyLen]
 }
+
+// Stream is the same digest computed incrementally (for inputs too long to hold in memory); New returns an empty one.
+type Stream struct {
+	v    [8]uint32
+	tail []byte
+	n    uint64
+}
+
+func New() *Stream { return &Stream{v: iv} }
+
+func (s *Stream) Write(p []byte) {
+	s.n += uint64(len(p))
+	s.tail = append(s.tail, p...)
+	i := 0
+	for ; i+64 <= len(s.tail); i += 64 {
+		cf(&s.v, s.tail[i:i+64])
+	}
+	s.tail = append(s.tail[:0], s.tail[i:]...)
+}
+
+func (s *Stream) Sum(_ []byte) []byte {
+	msg := append(append([]byte{}, s.tail...), 0x80)
+	for len(msg)%64 != 56 {
+		msg = append(msg, 0)
+	}
+	var lb [8]byte
+	binary.BigEndian.PutUint64(lb[:], s.n*8)
+	msg = append(msg, lb[:]...)
+	v := s.v
+	for i := 0; i < len(msg); i += 64 {
+		cf(&v, msg[i:i+64])
+	}
+	out := make([]byte, 32)
+	for i := 0; i < 8; i++ {
+		binary.BigEndian.PutUint32(out[4*i:], v[i])
+	}
+	return out
+}
